@@ -564,24 +564,21 @@ pub struct RunObs {
     pub rc_tree: Option<Dom>,
 }
 
-/// Copy an RcDom tree into the model arena (iteratively; parent links are taken from RcDom's own
-/// weak parent pointers, so a wrong link shows as a wrong link).
+/// Copy an RcDom tree into the model arena (iteratively).  The copy is purely structural: a
+/// node's parent is the node whose child list holds it (whether RcDom's own parent pointers agree,
+/// and whether a node is shared between two places, is C20's business, not the skeleton's).
 pub fn dom_from_rcdom(doc: &markup5ever_rcdom::Handle) -> Dom {
     use markup5ever_rcdom::NodeData;
-    use std::collections::BTreeMap;
     let mut dom = Dom { nodes: vec![], quirks: None };
-    let mut ids: BTreeMap<usize, Id> = BTreeMap::new();
-    let key = |h: &markup5ever_rcdom::Handle| Rc::as_ptr(h) as usize;
-    // (rc node, is template-contents fragment of model id)
-    let mut stack: Vec<(markup5ever_rcdom::Handle, Option<Id>)> = vec![(doc.clone(), None)];
-    let mut order: Vec<(markup5ever_rcdom::Handle, Id)> = vec![];
-    while let Some((h, host)) = stack.pop() {
+    // (rc node, template element it is the contents of, parent in the copy)
+    let mut stack: Vec<(markup5ever_rcdom::Handle, Option<Id>, Option<Id>)> = vec![(doc.clone(), None, None)];
+    while let Some((h, host, parent)) = stack.pop() {
         let kind = match &h.data {
             NodeData::Document => {
-                if host.is_some() || !dom.nodes.is_empty() {
-                    Kind::Fragment
-                } else {
+                if dom.nodes.is_empty() {
                     Kind::Document
+                } else {
+                    Kind::Fragment
                 }
             },
             NodeData::Doctype { name, public_id, system_id } => Kind::Doctype { name: name.to_string(), public_id: public_id.to_string(), system_id: system_id.to_string() },
@@ -599,29 +596,22 @@ pub fn dom_from_rcdom(doc: &markup5ever_rcdom::Handle) -> Dom {
             },
         };
         let id = dom.new_node(kind);
-        ids.insert(key(&h), id);
         if let Some(t) = host {
             dom.nm(t).template_contents = Some(id);
             dom.nm(id).host = Some(t);
         }
+        if let Some(p) = parent {
+            dom.nm(p).children.push(id);
+            dom.nm(id).parent = Some(p);
+        }
         if let NodeData::Element { template_contents, .. } = &h.data {
             if let Some(tc) = template_contents.borrow().as_ref() {
-                stack.push((tc.clone(), Some(id)));
+                stack.push((tc.clone(), Some(id), None));
             }
         }
         for c in h.children.borrow().iter().rev() {
-            stack.push((c.clone(), None));
+            stack.push((c.clone(), None, Some(id)));
         }
-        order.push((h, id));
-    }
-    for (h, id) in &order {
-        let kids: Vec<Id> = h.children.borrow().iter().map(|c| ids[&key(c)]).collect();
-        dom.nm(*id).children = kids;
-        let parent = h.parent.take();
-        let up = parent.as_ref().and_then(|w| w.upgrade());
-        h.parent.set(parent);
-        // a parent outside the tree (or none) is recorded as "no parent"
-        dom.nm(*id).parent = up.and_then(|p| ids.get(&key(&p)).cloned());
     }
     dom
 }
